@@ -144,7 +144,14 @@ def c10(run):
     graph_trace(run, ["C10"], has_retrieval,
                 "get_changes(have) for random antichains `have` and get_change_by_hash after every scenario, "
                 "digests of raw bytes compared with the digest fixed when the change was created; "
+                "long histories (17-48 changes, so that the graph's clock cache at every 16th change is used) with fresh "
+                "actors that sort before the existing ones, rolled-back and empty transactions, forks, actor switches, "
+                "save/load and retrievals in between (longgraph family); "
                 "non-trivial = scenario with a retrieval for non-empty have", 150, 3000)
+    t = os.path.join(run.work, "longgraph.ndjson")
+    drive(["longgraph", run.seed, sizes(run, 120, 2500), t])
+    run.validate("Trace_Graph.tla", ["C10"], t, "longgraph")
+    count_nontrivial(run, t, has_retrieval)
 
 
 # ---------------------------------------------------------------- document family
@@ -316,6 +323,9 @@ def c03(run):
     interp_trace(run, ["C03"], "conflict", sizes(run, 100, 2000), has_conflict, spec="Trace_Seq.tla")
     interp_trace(run, ["C03"], "marksinv", sizes(run, 60, 1500), has_failed_call, spec="Trace_Seq.tla")
     interp_trace(run, ["C03"], "textenc", sizes(run, 40, 1000), has_failed_call, spec="Trace_Seq.tla")
+    # block markers (split_block / join_block / replace_block at valid and invalid positions) and calls on texts that
+    # contain block markers
+    interp_trace(run, ["C03"], "spans", sizes(run, 150, 3000), has_failed_call, spec="Trace_Seq.tla")
 
 
 def has_readat_pair(sc):
